@@ -563,6 +563,18 @@ fn scenarios() -> Vec<(Sc, Option<usize>, usize)> {
             None,
             8,
         ),
+        // two groups of ONE scope share that scope's index entry: the last member of one leaves (or exits) while
+        // the first member of the other joins
+        (
+            Sc { name: "last-leaves-g1-vs-first-joins-g2-same-scope", n_cells: 5, setup: vec![Op::Join("s", "g1", vec![a]), Op::MonitorScope("s", mw)], threads: vec![vec![Op::Leave("s", "g1", vec![a])], vec![Op::Join("s", "g2", vec![b])]], strangers: vec![n, m], after: vec![Op::Listing, Op::Members("s", "g2")] },
+            None,
+            8,
+        ),
+        (
+            Sc { name: "last-exits-g1-vs-first-joins-g2-same-scope", n_cells: 5, setup: vec![Op::Join(DS, "g1", vec![a]), Op::Monitor("g2", m)], threads: vec![vec![Op::Exit(a)], vec![Op::Join(DS, "g2", vec![b])], vec![Op::Listing]], strangers: vec![n], after: vec![Op::Members(DS, "g2")] },
+            Some(3),
+            8,
+        ),
         // a draining actor is alive: its joins and monitors take effect like anybody else's
         (
             Sc { name: "draining-actor-joins-and-monitors", n_cells: 5, setup: vec![Op::Drainify(a), Op::Drainify(mw), Op::Monitor("g", m), Op::Monitor("h", a), Op::MonitorScope("s", mw)], threads: vec![vec![Op::Join(DS, "g", vec![a, b]), Op::Members(DS, "g")], vec![Op::Join("s", "h", vec![a]), Op::Join(DS, "h", vec![b])]], strangers: vec![n], after: vec![Op::Members(DS, "g"), Op::Members("s", "h"), Op::Leave("s", "h", vec![a])] },
